@@ -96,7 +96,19 @@ func scionT(s *slayers.SCION) string {
 		n(uint64(s.FlowID)), n(uint64(s.NextHdr)), n(uint64(s.HdrLen)), n(uint64(s.PayloadLen)),
 		n(uint64(s.PathType)), n(uint64(s.DstAddrType)), n(uint64(s.SrcAddrType)),
 		n(uint64(s.DstIA)), n(uint64(s.SrcIA)), bytesT(s.RawDstAddr), bytesT(s.RawSrcAddr),
-		pathT(s.Path))
+		pathTT(s.Path, uint8(s.PathType)))
+}
+
+// pathTT: like pathT; a path of an unregistered type (path.rawPath, only produced by a layer with
+// RecyclePaths) is printed as the opaque bytes it serializes to.
+func pathTT(p path.Path, pt uint8) string {
+	switch p.(type) {
+	case empty.Path, *scion.Raw, *scion.Decoded, *onehop.Path, *epic.Path:
+		return pathT(p)
+	}
+	b := make([]byte, p.Len())
+	_ = p.SerializeTo(b)
+	return vgen.App("HdrPath.POpaque", n(uint64(pt)), bytesT(b))
 }
 
 type tlv struct {
@@ -952,6 +964,7 @@ func takesPayload(v any) bool {
 // ---------------------------------------------------------------- case construction
 
 type runner struct {
+	serOverride func() ([]byte, error) // encValue: bytes produced by a reused object instead of ser(v)
 	run      *vgen.Run
 	maxHops  int
 	maxBytes int
@@ -1033,7 +1046,11 @@ func (rn *runner) encValue(v any, fix bool, payload []byte) {
 	var rest []byte
 	var derr error
 	pan, msg := vgen.Recover(func() {
-		hb, err = ser(v, fix, payload)
+		if rn.serOverride != nil {
+			hb, err = rn.serOverride()
+		} else {
+			hb, err = ser(v, fix, payload)
+		}
 		if err == nil {
 			redec, rest, derr = dec(lay, id, append(append([]byte(nil), hb...), payload...))
 		}
@@ -1156,7 +1173,7 @@ func (rn *runner) decCaseR(lay string, id int, bs []byte, how string, mutatedLen
 // lenOffsets: byte offsets of length / type / pointer fields of a valid serialization.
 func lenOffsets(lay string, bs []byte) []int {
 	switch lay {
-	case "Hdr.LScion":
+	case "Hdr.LScion", "Hdr.LScionR":
 		o := []int{5, 8, 9, 6, 7}
 		if len(bs) > 12 {
 			tl := bs[9]
@@ -1337,8 +1354,11 @@ func main() {
 			}
 		}
 	}
-	// 5. decode sequences on reused objects; 6. ExtLen boundary values (seq.go)
+	// 5. decode sequences on reused objects; 6. ExtLen boundary values; 7. every PathType on a
+	// fresh and on one reused recycling layer; 8. Reset sequences on one PacketAuthOption (seq.go)
 	rn.sequences(rng)
 	rn.extBoundaries(rng)
+	rn.pathTypeSweep(rng)
+	rn.spaoSequences(rng)
 	run.Finish()
 }
